@@ -110,7 +110,7 @@ impl Swarm {
                 Overlay::Clock75,
                 Overlay::Clock75,
             ],
-            C17 => &[Overlay::None, Overlay::None, Overlay::None, Overlay::Clock50, Overlay::Clock75],
+            C17 => &[Overlay::None, Overlay::None, Overlay::None, Overlay::NumberMid, Overlay::NumberMid, Overlay::Clock50, Overlay::Clock75],
             _ => &[
                 Overlay::None,
                 Overlay::None,
@@ -121,6 +121,7 @@ impl Swarm {
                 Overlay::ClockMax,
                 Overlay::NumberMax,
                 Overlay::BothMax,
+                Overlay::NumberMid,
             ],
         };
         let overlay = overlay_choices[rng.below(overlay_choices.len())];
@@ -675,7 +676,12 @@ impl Gen {
 
     fn gen_read(&mut self, w: &World) -> Op {
         let walkers = 1 + self.rng.below(4) as u8;
-        let n = [4usize, 8, 16, 32, 64][self.rng.below(5)];
+        // long chains get long scripts now and then, so that their middle is walked too
+        let n = if w.rc.len() > 48 && self.rng.chance(30) {
+            [128usize, 200, 256][self.rng.below(3)]
+        } else {
+            [4usize, 8, 16, 32, 64][self.rng.below(5)]
+        };
         let mut script = Vec::with_capacity(n);
         let mut dir = vec![true; walkers as usize];
         for _ in 0..n {
